@@ -1069,7 +1069,7 @@ class HtmlBlock(BlockToken):
     _end_cond = None
     multiblock = re.compile(r'<(pre|script|style|textarea)[ \t>\n]', re.IGNORECASE)
     _multiblock_ends = ('</pre>', '</script>', '</style>', '</textarea>')
-    predefined = re.compile(r'<\/?(.+?)(?:\/?>|[ \n])')
+    predefined = re.compile(r'<\/?(.+?)(?:\/?>|[ \t\n])')
     custom_tag = re.compile(r'(?:' + '|'.join((span_token._open_tag,
                                 span_token._closing_tag)) + r')\s*$')
 
